@@ -106,6 +106,83 @@ class XmlHooks(C04.ParserHooks):
         return C04.ParserHooks.call(self, num, st, e, args)
 
 
+def child_loop_exits(R, P):
+    """BALANCE/child-loop: aws_xml_node_traverse reports success only after it has met the parent's closing tag.  Every way
+    out of the loop that looks for the next child is one of: a recorded parser error (the loop condition), the closing-tag
+    decision (a test of the byte behind '<' against '/', directly or through a flag set under it), or a path that ends in a
+    failing return - a document that simply ends inside an open element is not accepted."""
+    f = P.fn("aws_xml_node_traverse")
+    if not R.require(f is not None, "aws_xml_node_traverse not found"):
+        return
+    from sa.cfg import edges
+    cb = [e for e in f.indirect_calls() if (RU.uncast(f, e.node.get("fn")) or {}).get("k") == "var"]
+    loops = Num(f, P, None).loops()
+    around = [(h, set(b) | {h}) for h, b in loops.items() if cb and cb[0].blk in b]
+    if not R.require(len(around) >= 1, "aws_xml_node_traverse: the child loop (around the callback) not found"):
+        return
+    h, region = sorted(around, key=lambda hb: len(hb[1]))[0]
+    # flags set to true under a comparison with '/'
+    slash_flags = set()
+    for b in f.blocks.values():
+        for el in b.elems:
+            if el["k"] == "bin" and el["op"] == "=" and (f.d(el["a"][0]) or {}).get("k") == "var" and f.is_const(RU.uncast(f, el["a"][1])) == 1:
+                ev_ = type("E", (), {"blk": b.id, "idx": 0, "seq": 0})()
+                for c_, p_, b_ in RU.guards(f, ev_):
+                    g = RU.cmp_norm(f, c_, p_)
+                    if g and g[2] is not None and g[1] == "==" and 47 in (f.is_const(RU.uncast(f, g[0])), f.is_const(RU.uncast(f, g[2]))):
+                        slash_flags.add(f.d(el["a"][0])["n"])
+
+    def fails(succ):
+        seen, work = set(), [succ]
+        while work:
+            x = work.pop()
+            if x in seen or x in region:
+                continue
+            seen.add(x)
+            rr = [el for el in f.blocks[x].elems if el["k"] == "ret"]
+            if rr:
+                v = RU.uncast(f, rr[0]["a"][0]) if rr[0].get("a") else None
+                cv = f.is_const(v) if v is not None else None
+                if cv is None and v is not None and v["k"] == "member" and v["f"] == "error":
+                    # `parser->error = AWS_OP_ERR; return parser->error;`
+                    for el in f.blocks[x].elems:
+                        if el["k"] == "bin" and el["op"] == "=" and (RU.uncast(f, el["a"][0]) or {}).get("f") == "error" and f.is_const(RU.uncast(f, el["a"][1])) not in (None, 0):
+                            cv = f.is_const(RU.uncast(f, el["a"][1]))
+                if cv is None or cv == 0:
+                    return False
+                continue
+            work.extend(s2 for s2, _, _ in edges(f, x))
+        return bool(seen)
+    bad, n = [], 0
+    for b in sorted(region):
+        for succ, cnd, pol in edges(f, b):
+            if succ in region or f.blocks[b].noreturn:
+                continue
+            n += 1
+            if fails(succ):
+                continue
+            reasons = []
+            conds = [(cnd, pol)] if cnd is not None and isinstance(pol, bool) else []
+            ev_ = type("E", (), {"blk": b, "idx": 0, "seq": 0})()
+            conds += [(c_, p_) for c_, p_, b_ in RU.guards(f, ev_) if b_ in region]
+            okx = False
+            for c_, p_ in conds:
+                g = RU.cmp_norm(f, c_, p_)
+                if not g:
+                    continue
+                l_ = RU.uncast(f, g[0])
+                if l_ is not None and l_["k"] == "member" and l_["f"] == "error" and g[1] == "!=" and (g[2] is None or f.is_const(g[2]) == 0):
+                    okx = True
+                if l_ is not None and l_["k"] == "var" and l_["n"] in slash_flags and g[1] == "!=" and g[2] is None:
+                    okx = True
+                if g[2] is not None and g[1] == "==" and 47 in (f.is_const(RU.uncast(f, g[0])), f.is_const(RU.uncast(f, g[2]))):
+                    okx = True
+            if not okx:
+                bad.append("%s:%s" % (FILE, (f.blocks[b].term_loc or [0])[0]))
+    R.check(not bad and n >= 3, "BALANCE", "traverse:child-loop-left-only-at-the-closing-tag", "%s()" % f.name, "%d ways out of the child loop: a recorded error, the parent's closing tag, or a failing return" % n,
+            "the child loop can be left towards the successful return without the parent's closing tag having been met (%s): a document that ends inside an open element is accepted" % bad)
+
+
 def balance(R, P):
     f = P.fn("aws_xml_node_traverse")
     if not R.require(f is not None, "aws_xml_node_traverse not found"):
@@ -717,6 +794,7 @@ def analyse(ctx, replace=None, only=None):
         C04.analyse(ctx, replace=replace, only={"files": [FILE], "rules": ["RECUR", "SUMMARY"], "recur": ("xml",)}, hooks=XmlHooks())
     if on("BALANCE"):
         balance(R, P)
+    child_loop_exits(R, P)
     if on("ONCE", "SKIP"):
         once(R, P)
     if on("DECL"):
